@@ -10,7 +10,8 @@ PROPS = {
     "C05": dict(extra_trusted=["documents are templates over a finite set of names; find_location / overlap / create_stog replaced by their contracts where stated"]),
     "C06": dict(extra_trusted=["create_stog verified against the contract of find_location (stub = spec term discharged in the same run)"]),
     "C07": dict(extra_trusted=["pysat / Minisat22 as SAT oracle", "nothing beyond the stated bounds is proved for the CNF model sets"]),
-    "C08": dict(extra_trusted=["pysat / Minisat22 as SAT oracle and model enumerator", "grids are full lattices"]),
+    "C08": dict(extra_trusted=["pysat / Minisat22 as SAT oracle and model enumerator", "grids are full lattices",
+                                "areas are integerised by the tool as int(factor * area), factor 10000 by default (option --sf): for lattices with cells below 0.01 square units the harness sets the factor a user would have to set (smallest cell = 100 units); with the default factor such lattices give all-zero areas and rect.solve divides by zero"]),
     "C09": dict(extra_trusted=["GEKKO only builds the model (nothing solved)", "z3 translation of ExpressionTree cross-validated against evaluate() on every run",
                                 "instances (netlist constants) enumerated, configurations symbolic"]),
     "C10": dict(extra_trusted=["ASSUMED and unchecked: after solve every GEKKO/APOPT variable is within its bounds and every equation holds",
